@@ -58,6 +58,7 @@ AFTER = {   # changes first missed (by the quick tier or entirely), then caught 
  'C09-9': ('missed by quick and thorough', 'gen_pattern.build_pt: a third of all physical tensors are views with storage offset 3, another third additionally have non-standard strides (all pattern-based checks C06-C09, C13, C14, C20 inherit it)', 'quick'),
  'C14-10': ('missed by quick and thorough', 'C14: ids given explicitly must be the object\'s ids and persistent whatever their value; the first node of each rule is named \'\' in every other case', 'quick'),
  'C17-9': ('missed by quick and thorough', 'C17: the conflicting terminal has the same arity and kind but another node label ([B] against [A]) in half of the conflict cases', 'quick'),
+ 'C03-9': ('missed by quick and thorough', 'C03/C11 command-line route: -t in half of the runs, gradients must stay those of the start symbol', 'quick'),
  'C12-9': ('missed by quick, caught by thorough', 'C12: duplicate-production scenario (last rule listed twice, ids explicit and unique per rule only)', 'quick'),
  'C07-9': ('missed by quick (thorough not decisive either)', '(open: degenerate sum types SumAxis(0, unit, 0) are not generated by G2; see DESIGN 9.6 round 5)', 'missed'),
  'C20-1': ('(strengthened before the first evaluation, after reading the sub-agent\'s report)', 'C20: permuted / equal / prefix copies of a domain in the equality clause', 'quick'),
